@@ -198,6 +198,7 @@ func begin(name string, mutating bool, path string) error {
 		if ctl.crashAtMut > 0 && ctl.mut >= ctl.crashAtMut && !ctl.frozen {
 			ctl.frozen = true
 			ctl.fired["crash"]++
+			ctl.fired["crash-before-"+name+"-"+pathClass(path)]++
 		}
 	}
 	if ctl.keepLog {
@@ -220,6 +221,25 @@ func begin(name string, mutating bool, path string) error {
 }
 
 func simrtNote(name, path string) { simrt.Note("os %s %s", name, short(path)) }
+
+// pathClass names what kind of file an operation touches (for reach probes).
+func pathClass(p string) string {
+	switch {
+	case strings.HasSuffix(p, "index.json.tmp"):
+		return "index-tmp"
+	case strings.HasSuffix(p, "index.json"):
+		return "index"
+	case strings.Contains(p, "/ingest"):
+		return "ingest"
+	case strings.Contains(p, "/blobs/"):
+		return "blob"
+	case strings.Contains(p, "oras_credstore_temp"):
+		return "cred-temp"
+	case strings.HasSuffix(p, "config.json"):
+		return "cred-config"
+	}
+	return "other"
+}
 
 func short(p string) string {
 	if i := strings.Index(p, "/vroot/"); i >= 0 {
